@@ -1500,6 +1500,7 @@ static void run_line(char *line, int idx)
   const char *err;
   j_reset();
   trace = NULL; cur_call = NULL; cur_keys = NULL; soft_div = NULL; soft_offset = 0; soft_offset_fd = 0; in_conc = 0; drop_kept();
+  errno = 0;   /* (every script starts as its replay alone would: nothing left over from the previous script of the batch) */
   if (!strncmp(line, "<<\"BEH\", \"", 10)) {
     /* TLC PrintT of <<"BEH", ToJson(hist)>>: a TLA+ string literal; undo its escaping in place */
     char *o = line, *q = line + 10;
